@@ -4,7 +4,7 @@ use crate::ast;
 use quiver_core::{
     bytecode::{Constant, Instruction},
     program::Program,
-    types::{Type, TypeLookup},
+    types::{NIL, Type, TypeLookup},
 };
 
 use super::{
@@ -171,6 +171,16 @@ pub fn analyze_pattern(
         }
     }
 
+    // A name that some binding set lacks (a star over variants with different labels) is bound
+    // to nil when that set matches; see generate_pattern_code.
+    let nil_id = program.register_type(Type::nil());
+    for (name, types) in &mut bindings_map {
+        let bound_by = |set: &BindingSet| set.bindings.iter().any(|b| b.name == *name);
+        if !binding_sets.iter().all(bound_by) {
+            types.push(nil_id);
+        }
+    }
+
     // Sort by name to ensure consistent ordering (must match generate_pattern_code)
     let mut all_bindings: Vec<(String, usize)> = bindings_map
         .into_iter()
@@ -191,6 +201,15 @@ pub fn generate_pattern_code(
 ) -> Result<(), Error> {
     let mut end_jumps = Vec::new();
     let mut next_set_jumps = Vec::new();
+
+    // Every name the pattern binds, in the order the caller allocated their locals (by name).
+    // Each binding set stores all of them, so that the locals line up whichever set matched.
+    let mut names: Vec<&str> = binding_sets
+        .iter()
+        .flat_map(|set| set.bindings.iter().map(|binding| binding.name.as_str()))
+        .collect();
+    names.sort_unstable();
+    names.dedup();
 
     for (i, binding_set) in binding_sets.iter().enumerate() {
         // Patch jumps from previous iteration that should skip to this binding set
@@ -252,13 +271,14 @@ pub fn generate_pattern_code(
             }
         }
 
-        // If we get here, all checks passed - extract bindings
-        // Sort by name to ensure consistent ordering across binding sets (important for unions
-        // where different variants may have bindings in different field orders)
-        let mut sorted_bindings: Vec<_> = binding_set.bindings.iter().collect();
-        sorted_bindings.sort_by(|a, b| a.name.cmp(&b.name));
-        for binding in sorted_bindings {
-            generate_value_access(codegen, &binding.path);
+        // If we get here, all checks passed - extract bindings, in name order (variants of a
+        // union may bind the same names from different field positions). A name this set does
+        // not bind (`=*` on `Q[y: 'int] | Box[x: 'int]` binds `x` and `y`) is stored as nil.
+        for name in &names {
+            match binding_set.bindings.iter().find(|b| b.name == *name) {
+                Some(binding) => generate_value_access(codegen, &binding.path),
+                None => codegen.add_instruction(Instruction::Tuple(NIL)),
+            }
             codegen.add_instruction(Instruction::Store);
         }
 
